@@ -158,6 +158,11 @@ func insertUtcTime(t time.Time) (seconds uint32, fraction uint32) {
 	// running extractUtcTime and then insertUtcTime will produce
 	// different results because of rounding that heppns twice.
 	// 1 is added to avoid truncating the second time.
-	fraction = uint32((((nanos % 1e9) + 1) << 32) / 1e9)
+	frac := (((nanos % 1e9) + 1) << 32) / 1e9
+	if frac > 0xFFFFFFFF {
+		// x.999999999 s: the rounded-up fraction does not fit in 32 bits
+		frac = 0xFFFFFFFF
+	}
+	fraction = uint32(frac)
 	return
 }
